@@ -41,6 +41,9 @@ def gen_static_defs(rng, w, npos=None, n_methods=None, allow_kw=True, allow_arit
     if allow_dup and rng.random() < 0.3 and defs:
         d = dict(rng.choice(defs))
         d["id"] = len(defs)
+        if rng.random() < 0.5 and d["pos"] and not d.get("kw"):
+            # the re-definition renames its positional parameters: still the same signature (names are not part of it)
+            d["names"] = [f"b{i}" for i in range(len(d["pos"]))]
         defs.append(d)
     return defs
 
